@@ -1,6 +1,10 @@
-// Harness for C15 (paged iteration). Two tiers, both compared with the Lean model (lean/Model/Paging.lean):
+// Harness for C15 (paged iteration). Three tiers, all compared with the Lean model (lean/Model/Paging.lean,
+// lean/Model/PagingHist.lean):
 //   - session tier (session.go, ops `sess` / `sessx`): a real gocql.Session runs a paged query against a
 //     scripted in-memory node; observed: rows + final error at the application, requests at the node.
+//   - history tier (hist.go, histgen.go, op `hist`): ONE *gocql.Query object driven through a history of
+//     setters, Iter() calls, interleaved Scan calls and cancellations against a KEYED node; observed: rows +
+//     error per iterator, the multiset of requests with every wire attribute, observer and tracer calls.
 //   - Iter tier (op `iter`): REAL gocql Iter / nextIter / framer chains for scripted pages (built through
 //     the hook file) consumed with the real Scan, Scanner, MapScan and SliceMap, without a server.
 //
@@ -10,15 +14,19 @@ package main
 
 import (
 	"bytes"
+	"encoding/json"
 	"errors"
 	"fmt"
 	"go/ast"
 	"go/parser"
 	"go/printer"
 	"go/token"
+	"os"
+	osexec "os/exec"
 	"path/filepath"
 	"strconv"
 	"strings"
+	"sync"
 
 	"github.com/gocql/gocql"
 	"verifharness/vh"
@@ -130,6 +138,8 @@ func exec(op string) (res string) {
 		return astFacts()
 	case "sess", "sessx":
 		return execSess(op)
+	case "hist":
+		return execHist(op)
 	}
 	return "bad-op"
 }
@@ -207,6 +217,214 @@ func astFacts() string {
 		guard, copies, state, nAssign+other, next, clamp, carries, manual, fetchOnce, async, scanSw, scnrSw)
 }
 
+// ---------- crash supervision ----------
+//
+// A panic in one of gocql's own goroutines (not in a call the harness makes) cannot be recovered: it kills
+// the process. `run` therefore works in a child process that journals every scenario of the concurrent
+// tiers (start, answer). If the child dies, the supervisor runs each scenario that was in flight alone in a
+// fresh process (three times); one that kills that process too is written out as the run's result with the
+// answer `crash:<panic line>` — a concrete, replayable failing input instead of a broken run. If none does
+// (the crash needs the concurrency of the full run), the scenarios that had been answered before the crash
+// are written out from the journal, followed by a marker line that the model cannot agree with: the check
+// then reports the first real disagreement among them, or else the broken run.
+
+var journal struct {
+	mu sync.Mutex
+	f  *os.File
+}
+
+func journalStart(i int, op string) {
+	if journal.f != nil {
+		journal.mu.Lock()
+		fmt.Fprintf(journal.f, "S %d %s\n", i, op)
+		journal.mu.Unlock()
+	}
+}
+
+func journalDone(i int, answer string) {
+	if journal.f != nil {
+		journal.mu.Lock()
+		fmt.Fprintf(journal.f, "D %d %s\n", i, answer)
+		journal.mu.Unlock()
+	}
+}
+
+func supervise(tier, path string) {
+	os.MkdirAll(path, 0o755)
+	jpath := filepath.Join(path, "journal.txt")
+	racePrefix := filepath.Join(path, "race_report")
+	os.Remove(jpath)
+	cmd := osexec.Command(os.Args[0], os.Args[1:]...)
+	cmd.Env = append(os.Environ(), "C15_CHILD=1", "C15_JOURNAL="+jpath)
+	if raceBuild {
+		// race reports go to files and are judged below (known finding KF-C15-2 is tolerated, nothing else)
+		old, _ := filepath.Glob(racePrefix + ".*")
+		for _, f := range old {
+			os.Remove(f)
+		}
+		cmd.Env = append(cmd.Env, "GORACE="+strings.TrimSpace(os.Getenv("GORACE")+" exitcode=0 log_path="+racePrefix))
+	}
+	var buf bytes.Buffer
+	cmd.Stdout, cmd.Stderr = &buf, &buf
+	err := cmd.Run()
+	if err == nil {
+		os.Stdout.Write(buf.Bytes())
+		if raceBuild {
+			known, unknown := judgeRaces(racePrefix)
+			patchStats(path, map[string]interface{}{"race_reports_known_KF-C15-2": known, "race_reports_other": len(unknown)})
+			if len(unknown) > 0 {
+				fmt.Printf("%d data race report(s) other than KF-C15-2:\n%s\n", len(unknown), tailString(strings.Join(unknown, "\n"), 6000))
+				os.Exit(66)
+			}
+		}
+		return
+	}
+	code := 1
+	if ee, ok := err.(*osexec.ExitError); ok && ee.ExitCode() > 0 {
+		code = ee.ExitCode()
+	}
+	started := map[string]string{}
+	answered := map[string]string{}
+	var order []string
+	if _, e := os.Stat(jpath); e == nil {
+		for _, l := range vh.ReadLines(jpath) {
+			w := strings.SplitN(l, " ", 3)
+			if len(w) != 3 {
+				continue // a line cut short by the crash
+			}
+			switch w[0] {
+			case "S":
+				started[w[1]] = w[2]
+				order = append(order, w[1])
+			case "D":
+				answered[w[1]] = w[2]
+			}
+		}
+	}
+	var ops, answers []string
+	ncand := 0
+	for _, id := range order {
+		if _, done := answered[id]; done {
+			continue
+		}
+		ncand++
+		if len(ops) >= 8 {
+			continue
+		}
+		op := started[id]
+		tmp := filepath.Join(path, "crash_candidate.txt")
+		os.WriteFile(tmp, []byte(op+"\n"), 0o644)
+		for try := 0; try < 3; try++ {
+			c := osexec.Command(os.Args[0], "replay", "-", tmp)
+			var out bytes.Buffer
+			c.Stdout, c.Stderr = &out, &out
+			if e := c.Run(); e != nil {
+				msg := "process died"
+				for _, l := range strings.Split(out.String(), "\n") {
+					if strings.HasPrefix(l, "panic:") || strings.HasPrefix(l, "fatal error:") {
+						msg = l
+						break
+					}
+				}
+				ops = append(ops, op)
+				answers = append(answers, "crash:"+strings.ReplaceAll(msg, " ", "_"))
+				break
+			}
+		}
+	}
+	if len(order) == 0 {
+		os.Stdout.Write(buf.Bytes())
+		os.Exit(code)
+	}
+	out := vh.NewOut(path)
+	if len(ops) > 0 {
+		fmt.Printf("the run died (exit %d); %d scenario(s) kill the process when run alone\n", code, len(ops))
+		for i, op := range ops {
+			out.Case(op, answers[i], "process-crash", true)
+		}
+	} else {
+		fmt.Printf("the run died (exit %d); none of the %d scenarios in flight does it alone; writing out the %d scenarios answered before\n%s\n",
+			code, ncand, len(answered), tailString(buf.String(), 2500))
+		for _, id := range order {
+			if a, done := answered[id]; done {
+				out.Case(started[id], a, "answered-before-process-crash", true)
+			}
+		}
+		out.Case("crashed process-died-with-scenarios-in-flight", "the-harness-process-died;see-stats.json-process_crash_output", "process-crash", true)
+	}
+	out.Close(map[string]interface{}{"process_crash_output": tailString(buf.String(), 3000)})
+}
+
+// judgeRaces reads the race detector's reports. KNOWN (KF-C15-2): a plain read whose innermost frame is
+// conn.go's (*Conn).executeQuery (the struct copy `*newQry = *qry` for the next-page query) or
+// (*Query).WithContext (`q2 := *q`) — both read the whole Query including refCount — against an atomic add
+// (borrowForExecution / releaseAfterExecution of an execution goroutine of the same query that the
+// speculative path of queryExecutor.executeQuery started and that is still running). Everything else is
+// returned verbatim.
+func judgeRaces(prefix string) (known int, unknown []string) {
+	files, _ := filepath.Glob(prefix + ".*")
+	for _, f := range files {
+		b, err := os.ReadFile(f)
+		if err != nil {
+			continue
+		}
+		for _, rep := range strings.Split(string(b), "==================") {
+			if !strings.Contains(rep, "WARNING: DATA RACE") {
+				continue
+			}
+			// the two accesses: "<Read|Write> at ... by goroutine N:" and "Previous <read|write> at ..."
+			var tops []string
+			lines := strings.Split(rep, "\n")
+			for i, l := range lines {
+				t := strings.TrimSpace(l)
+				if (strings.HasPrefix(t, "Read at ") || strings.HasPrefix(t, "Write at ") || strings.HasPrefix(t, "Previous read at ") ||
+					strings.HasPrefix(t, "Previous write at ")) && i+1 < len(lines) {
+					kind := "write"
+					if strings.HasPrefix(t, "Read at ") || strings.HasPrefix(t, "Previous read at ") {
+						kind = "read"
+					}
+					tops = append(tops, kind+" "+strings.TrimSpace(lines[i+1]))
+				}
+			}
+			isCopy := func(s string) bool {
+				return s == "read github.com/gocql/gocql.(*Conn).executeQuery()" || s == "read github.com/gocql/gocql.(*Query).WithContext()"
+			}
+			isAtomic := func(s string) bool { return strings.HasPrefix(s, "write sync/atomic.Add") }
+			if len(tops) == 2 && (isCopy(tops[0]) && isAtomic(tops[1]) || isCopy(tops[1]) && isAtomic(tops[0])) {
+				known++
+			} else {
+				unknown = append(unknown, rep)
+			}
+		}
+	}
+	return
+}
+
+func patchStats(dir string, extra map[string]interface{}) {
+	p := filepath.Join(dir, "stats.json")
+	b, err := os.ReadFile(p)
+	if err != nil {
+		return
+	}
+	st := map[string]interface{}{}
+	if json.Unmarshal(b, &st) != nil {
+		return
+	}
+	for k, v := range extra {
+		st[k] = v
+	}
+	if nb, err := json.MarshalIndent(st, "", " "); err == nil {
+		os.WriteFile(p, nb, 0o644)
+	}
+}
+
+func tailString(s string, n int) string {
+	if len(s) > n {
+		return s[len(s)-n:]
+	}
+	return s
+}
+
 func main() {
 	mode, tier, path := vh.Args()
 	if mode == "replay" {
@@ -214,6 +432,13 @@ func main() {
 			fmt.Println(exec(l))
 		}
 		return
+	}
+	if os.Getenv("C15_CHILD") == "" {
+		supervise(tier, path)
+		return
+	}
+	if jp := os.Getenv("C15_JOURNAL"); jp != "" {
+		journal.f, _ = os.OpenFile(jp, os.O_CREATE|os.O_WRONLY|os.O_APPEND, 0o644)
 	}
 	r := vh.NewRng(vh.EnvSeed())
 	out := vh.NewOut(path)
@@ -307,5 +532,8 @@ func main() {
 		emit(c, pages, cls)
 	}
 	extra := sessionTier(r, out, tier)
+	for k, v := range histTier(r, out, tier) {
+		extra[k] = v
+	}
 	out.Close(extra)
 }
